@@ -13,8 +13,8 @@ GEN = []
 LEAN = ["Ymq.Props.C14"]
 AUDIT = "Ymq.Audit.C14"
 THEOREMS = ["Ymq.C14." + t for t in (
-    "gauss_inv gauss_kernel gauss_independent gauss_count gauss_total "
-    "lanczos_final qs_optimize_same_matrix").split()]
+    "gauss_inv gauss_total gauss_kernel gauss_independent gauss_count "
+    "qs_optimize_same_matrix optMul_few_rows lanczos_final lanczos_final_total").split()]
 HYPOTHESES = []
 PROFILES = ["release", "chk"]
 TIMEOUT = 30.0
@@ -336,8 +336,20 @@ def gauss_case(cols, nrows, k=True, fmt=None, timeout=None, tag=""):
     return Case(f"gf2_gauss {nrows} {ncols} {fmt} {data}", k=k, timeout=timeout, tag=tag)
 
 
-def lanczos_case(cols, nrows, run, fu=True, timeout=None, shuffle_rng=None):
+def add_repeats(rng, sp, nrows):
+    """repeat some row indices inside some columns (an index listed twice cancels, three times counts once)"""
+    for c in sp:
+        if rng.randrange(3) == 0 and nrows:
+            for _ in range(rng.randrange(1, 4)):
+                i = rng.choice(c) if c and rng.randrange(2) else rng.randrange(min(nrows, rng.choice([64, nrows])))
+                c.extend([i] * rng.choice([1, 2, 2, 3]))
+            rng.shuffle(c)
+
+
+def lanczos_case(cols, nrows, run, fu=True, timeout=None, shuffle_rng=None, repeats=False):
     sp = [sparse_of_int(c) for c in cols]
+    if repeats:
+        add_repeats(shuffle_rng, sp, nrows)
     if shuffle_rng is not None:
         for c in sp:
             shuffle_rng.shuffle(c)
@@ -440,9 +452,10 @@ def lanczos_cases(rng, scale, extended):
         excess = rng.choice([-20, -1, 0, 0, 1, 3, 10, 50])
         corank = rng.choice([0, 0, 1, 1, 5, 30, 100])
         cols, nr = lanczos_matrix(rng, nrows, excess, rng.choice(PROFILES_M), corank)
+        rep = rng.randrange(4) == 0
         for _ in range(3):
             run += 1
-            yield lanczos_case(cols, nr, run, timeout=20)
+            yield lanczos_case(cols, nr, run, timeout=20, shuffle_rng=rng, repeats=rep)
     # one matrix, 20 runs over the routine's own randomness
     for _ in range(scale):
         nrows = rng.randrange(300, 600)
@@ -477,6 +490,8 @@ def product_cases(rng, scale, extended):
         sp = [sparse_of_int(c) for c in cols]
         for c in sp:
             rng.shuffle(c)
+        if rng.randrange(3) == 0:
+            add_repeats(rng, sp, nrows)
         y = block(rng, ncols if rng.randrange(12) else ncols + 1)
         m = f"{nrows} {ncols} {enc_sparse(sp)}"
         yield Case(f"gf2_qsopt {m}")
